@@ -17,6 +17,10 @@ pub struct Opts {
     pub node_kind_enums: bool,
     /// also produce the `parol export` JSON model and the node-types export
     pub exports: bool,
+    /// the remaining command line options that reach the generated text: `-t`, `-m`,
+    /// `--inner-attributes`, `--add-derives`, `--max-parsing-depth`
+    #[serde(default)]
+    pub custom: bool,
 }
 
 impl Opts {
@@ -30,12 +34,13 @@ impl Opts {
             disable_recovery: false,
             node_kind_enums: false,
             exports: true,
+            custom: false,
         }
     }
 
     pub fn short(&self) -> String {
         format!(
-            "k{}{}{}{}{}{}{}{}",
+            "k{}{}{}{}{}{}{}{}{}",
             self.max_k,
             if self.csharp { ",cs" } else { "" },
             if self.minimize_boxed_types { ",minbox" } else { "" },
@@ -44,6 +49,7 @@ impl Opts {
             if self.disable_recovery { ",norec" } else { "" },
             if self.node_kind_enums { ",nk" } else { "" },
             if self.exports { ",exp" } else { "" },
+            if self.custom { ",custom" } else { "" },
         )
     }
 
@@ -65,6 +71,16 @@ impl Opts {
         }
         if self.disable_recovery {
             a.push("--disable-recovery".into());
+        }
+        if self.custom {
+            for x in ["-t", "SimGrammar", "-m", "sim_grammar", "--inner-attributes", "allow-too-many-arguments",
+                      "--add-derives", "PartialEq,Eq", "--max-parsing-depth", "77"] {
+                a.push(x.into());
+            }
+        }
+        // the two further files the command line can write (listener in `run_generator`)
+        for x in ["-i", "g-internal.txt", "-u", "g-untransformed.par"] {
+            a.push(x.into());
         }
         a
     }
@@ -195,6 +211,38 @@ pub fn run_pipeline(text: &str, opts: &Opts, dir: &Path) -> Outcome {
     }
 }
 
+/// What `parol`'s own `CLIListener` does for `-i` and `-u` (crates/parol/src/bin/parol/main.rs):
+/// the parsed grammar's `Display` text and the untransformed grammar rendered as PAR text are
+/// generated files as well.
+struct FileListener<'a> {
+    dir: &'a Path,
+}
+
+impl parol::build::BuildListener for FileListener<'_> {
+    fn on_initial_grammar_parse(
+        &mut self,
+        _syntax_tree: &parol::parol_runtime::ParseTree,
+        _input: &str,
+        grammar: &parol::ParolGrammar,
+    ) -> parol::parol_runtime::Result<()> {
+        let _ = std::fs::write(self.dir.join("g-internal.txt"), format!("{grammar}"));
+        Ok(())
+    }
+
+    fn on_intermediate_grammar(
+        &mut self,
+        stage: parol::build::IntermediateGrammar,
+        config: &parol::GrammarConfig,
+    ) -> parol::parol_runtime::Result<()> {
+        if stage == parol::build::IntermediateGrammar::Untransformed {
+            if let Ok(t) = parol::render_par_string(config, true) {
+                let _ = std::fs::write(self.dir.join("g-untransformed.par"), t);
+            }
+        }
+        Ok(())
+    }
+}
+
 fn run_generator(
     grammar_file: &Path,
     opts: &Opts,
@@ -231,7 +279,15 @@ fn run_generator(
     if opts.csharp {
         builder.language(parol::Language::CSharp);
     }
-    let mut generator = match builder.begin_generation_with(None) {
+    if opts.custom {
+        builder.user_type_name("SimGrammar");
+        builder.user_trait_module_name("sim_grammar");
+        builder.inner_attributes(vec![parol::InnerAttributes::AllowTooManyArguments]);
+        builder.add_derives(vec!["PartialEq".to_string(), "Eq".to_string()]);
+        builder.max_parsing_depth(77);
+    }
+    let mut listener = FileListener { dir };
+    let mut generator = match builder.begin_generation_with(Some(&mut listener)) {
         Ok(g) => g,
         Err(e) => return ("err:config".into(), e.to_string()),
     };
